@@ -1,4 +1,35 @@
+import os, subprocess, json, re
+
+
+def build(ctx):
+    wd = os.path.join(ctx.here, ".work", "replay-crate")
+    os.makedirs(wd, exist_ok=True)
+    src = os.path.join(ctx.here, "replay")
+    toml = open(os.path.join(src, "Cargo.toml.in")).read().replace("@REPO@", os.path.abspath(ctx.repo)).replace("@SRC@", os.path.join(src, "src"))
+    open(os.path.join(wd, "Cargo.toml"), "w").write(toml)
+    lock = os.path.join(ctx.repo, "Cargo.lock")
+    if os.path.exists(lock) and not os.path.exists(os.path.join(wd, "Cargo.lock")):
+        import shutil
+        shutil.copy(lock, os.path.join(wd, "Cargo.lock"))
+    env = dict(os.environ, CARGO_NET_OFFLINE="true", CARGO_TARGET_DIR=os.path.join(ctx.here, ".work", "replay-target"))
+    p = subprocess.run(["cargo", "build", "--offline"], cwd=wd, env=env, capture_output=True, text=True, timeout=1800)
+    if p.returncode != 0:
+        raise RuntimeError("replay crate build failed: " + p.stderr[-800:])
+    return os.path.join(ctx.here, ".work", "replay-target", "debug", "qx_replay")
+
+
 def run(ctx, replay, witness):
-    raise RuntimeError("replay not implemented yet")
+    """True iff the witness still violates the obligation on the real code (violated or panicked)."""
+    if replay.get("kind") == "api":
+        exe = build(ctx)
+        p = subprocess.run([exe, replay["name"], json.dumps(witness or {})], capture_output=True, text=True, timeout=120)
+        m = re.search(r"QX-REPLAY (\S+)", p.stdout)
+        if not m or m.group(1) == "error":
+            raise RuntimeError("replay gave no verdict: " + (p.stdout + p.stderr)[-400:])
+        ctx.last_replay_output = p.stdout[-600:]
+        return m.group(1) in ("violated", "panicked")
+    raise RuntimeError("unknown replay kind %r" % replay.get("kind"))
+
+
 def search(ctx, spec, failure):
     return None
